@@ -223,6 +223,38 @@ def run(chk, scratch):
             chk.violation("cache-file-left-invalid", "%s: db_config.json is not valid JSON after the round: %r" % (desc, e), wit)
         chk.sample({"round": desc, "rmw_windows": n_win, "overlapping": n_over, "cache_events": len(evs), "parse_errors": len(bad_loads)}, limit=6)
         shutil.rmtree(rdir, ignore_errors=True)
+    # a cached database that is REWRITTEN by a later run of another annotation with the same file name into the same output folder:
+    # a third run of the first annotation must not be handed that file
+    for si, (k1, k2) in enumerate(((0, 1), (2, 3)) if thorough else ((0, 1),)):
+        rdir = os.path.join(scratch, "stale%d" % si)
+        home = os.path.join(rdir, "home")
+        os.makedirs(home)
+        d1, d2 = os.path.join(pool, "in%d" % k1), os.path.join(pool, "in%d" % k2)
+        out_a, out_b = os.path.join(rdir, "OUT_A"), os.path.join(rdir, "OUT_B")
+        seq = [("A1", d1, out_a, k1), ("A2", d2, out_a, k2), ("B", d1, out_b, k1)]
+        desc = "stale-database sequence %d: annotation %d -> OUT_A, annotation %d (same file name) -> OUT_A --force, annotation %d -> OUT_B" % (si, k1, k2, k1)
+        wit = {"scenario": "stale-database", "inputs": [k1, k2]}
+        for name, d, out, k in seq:
+            r = pipeline.run(d, out, threads=1, home=home)
+            chk.note()
+            if r["rc"] != 0:
+                chk.violation("concurrent-run-failed:stale-database:" + name, "%s: run %s exited %s: %s" % (desc, name, r["rc"], pipeline.fail_text(r)), wit)
+                break
+            for rel, why in runner.compare_trees(os.path.join(pool, "in%d" % k, "solo", pipeline.PREFIX), os.path.join(out, pipeline.PREFIX))[:4]:
+                chk.violation("stale-database:output-differs:" + (rel.split(".", 1)[1] if "." in rel else rel),
+                              "%s: run %s file %s %s compared with the same run executed alone" % (desc, name, rel, why), wit)
+            m = re.search(r"Using (\S+\.db)", r["out"])
+            db = m.group(1) if m else os.path.join(out, "a.db")
+            try:
+                import gffutils
+                ids = set(f.id for f in gffutils.FeatureDB(db).features_of_type("transcript"))
+                if ids != tsets[k]:
+                    chk.violation("wrong-database-used:stale-database", "%s: run %s used %s whose transcripts differ from its own GTF" % (desc, name, db), wit)
+                chk.count("databases_verified")
+            except Exception as e:
+                chk.violation("database-unreadable", "%s: run %s used %s: %r" % (desc, name, db, e), wit)
+        chk.count("stale_database_sequences")
+        shutil.rmtree(rdir, ignore_errors=True)
     for mi in range(6 if thorough else 2):
         mapper_cache_round(chk, scratch, mi, (4, 8, 12)[mi % 3], chk.seed * 10 + mi)
     chk.extra.update({"rounds": len(rounds), "rounds_with_overlapping_windows": overlapping_rounds, "cache_parse_errors_seen": parse_errors})
